@@ -15,12 +15,12 @@ pub fn property() -> Property {
     Property {
         id: "C04",
         level: "exploration",
-        rule: "a generated padding scheme (any stop, missing/duplicated lines, ranges of one, reversed ranges, check marks, junk parts, sizes 1 .. 2^63-1) and a generated single-task sequence of real API calls (start_client, open_stream, disable_buffering, write_data_frame with 0 .. 3 frames' worth of payload, heartbeat frames) on a real client session over a recording in-memory transport; after every call the recorded bytes must parse under the reference codec with no leftover and, with command-0 frames erased, equal the reference encoding of what was submitted. Non-trivial = the case emitted >= 1 padding frame, or a write boundary fell inside a frame, or a line with a size > 65535 was reached, or a check mark was reached with payload remaining. Distinct = distinct serialized case. Call sequences also contain 'the peer sends a keep-alive request' (the answer is a packet like any other); one case in four runs over a transport whose k-th write call accepts at most 7, 8, 256 or 64..5000 bytes (short writes). A further op starts a data write while the peer's keep-alive request is being answered by the receive task; three cases in ten run over a transport that holds at most 256 / 1024 / 4096 bytes in flight with a draining peer, so writes wait in the transport and the two writers interleave. Answers to keep-alive requests are counted (where they land between the caller's frames is not fixed), everything else is compared position by position. One case in six runs over a writer that hands nothing to the transport before flush (or shutdown): a packet the session never flushed is not on the wire when the call has returned.",
+        rule: "a generated padding scheme (any stop, missing/duplicated lines, ranges of one, reversed ranges, check marks, junk parts, sizes 1 .. 2^63-1) and a generated single-task sequence of real API calls (start_client, open_stream, disable_buffering, write_data_frame with 0 .. 3 frames' worth of payload, heartbeat frames) on a real client session over a recording in-memory transport; after every call the recorded bytes must parse under the reference codec with no leftover and, with command-0 frames erased, equal the reference encoding of what was submitted. Non-trivial = the case emitted >= 1 padding frame, or a write boundary fell inside a frame, or a line with a size > 65535 was reached, or a check mark was reached with payload remaining. Distinct = distinct serialized case. Call sequences also contain 'the peer sends a keep-alive request' (the answer is a packet like any other); one case in four runs over a transport whose k-th write call accepts at most 7, 8, 256 or 64..5000 bytes (short writes). A further op starts a data write while the peer's keep-alive request is being answered by the receive task; three cases in ten run over a transport that holds at most 256 / 1024 / 4096 bytes in flight with a draining peer, so writes wait in the transport and the two writers interleave. Answers to keep-alive requests are counted (where they land between the caller's frames is not fixed), everything else is compared position by position. One case in six runs over a writer that hands nothing to the transport before flush (or shutdown): a packet the session never flushed is not on the wire when the call has returned. Family `after_error`: the same kind of history over a transport one of whose writes (at a generated offset of the fault-free wire) or flushes fails once with TimedOut / WouldBlock / Interrupted / BrokenPipe and which works again afterwards; if the session puts anything on the transport after that error, the error must have fallen on a frame boundary, the wire must parse completely, and every non-padding frame must be one that was submitted, in order. Non-trivial there = the failed write fell inside a frame.",
         assumptions: vec![
             "reference codec and reference scheme reader (harness/src/reference)",
             "tokio paused clock / current-thread scheduler; in-memory pipe of the harness",
         ],
-        families: vec![(Box::new(WireFam), 200_000, 1_000_000)],
+        families: vec![(Box::new(WireFam), 200_000, 1_000_000), (Box::new(AfterErrorFam), 30_000, 600_000)],
     }
 }
 
@@ -381,6 +381,170 @@ impl Family for WireFam {
                 }
             }
         }
+        Ok(out)
+    }
+}
+
+// ------------------------------------------------------------------------------------------
+// family `after_error`: a write or flush of the transport fails once (and the transport works again
+// afterwards - a write-timeout wrapper, a layer that reports a transient condition as an error).
+// Whatever the session does about it, it must not go on writing behind a frame the failed write cut
+// short: the bytes on the transport must still parse as complete frames, and every frame that is not
+// padding must be one the session was asked to send.
+
+#[derive(Clone, Debug, Serialize, Deserialize)]
+pub struct AfterErrorCase {
+    pub scheme: SchemeGen,
+    pub ops: Vec<Op>,
+    pub draw_seed: u64,
+    /// where the one failing write falls, as a fraction of the fault-free wire
+    pub err_at: u16,
+    /// Some(k): the k-th flush fails instead
+    pub flush_k: Option<u8>,
+    /// 0 timed out, 1 would block, 2 interrupted, 3 broken pipe
+    pub kind: u8,
+}
+
+pub struct AfterErrorFam;
+
+impl Family for AfterErrorFam {
+    type Case = AfterErrorCase;
+    fn name(&self) -> &'static str {
+        "after_error"
+    }
+    fn strategy(&self, _tier: Tier) -> BoxedStrategy<AfterErrorCase> {
+        // schemes that pad (several records per packet) and the built-in one, short payloads first
+        let small_ops = {
+            let op = prop_oneof![
+                2 => Just(Op::Open),
+                1 => Just(Op::Unbuffer),
+                6 => (any::<u16>(), prop_oneof![3 => 0usize..=300, 2 => 301usize..=3000, 1 => 3001usize..=70_000]).prop_map(|(i, l)| Op::Data(i, l)),
+                1 => Just(Op::Heart),
+                1 => Just(Op::PeerHeart),
+            ];
+            proptest::collection::vec(op, 1..10).prop_map(|mut v| {
+                v.insert(0, Op::Open);
+                v.insert(1, Op::Unbuffer);
+                v
+            })
+        };
+        (prop_oneof![1 => Just(None), 2 => scheme(size_any(), 8).prop_map(Some)], small_ops, any::<u64>(), any::<u16>(), proptest::option::weighted(0.15, 0u8..8), 0u8..4)
+            .prop_map(|(scheme, ops, draw_seed, err_at, flush_k, kind)| AfterErrorCase { scheme: scheme.unwrap_or_else(SchemeGen::builtin), ops, draw_seed, err_at, flush_k, kind })
+            .boxed()
+    }
+    fn run(&self, case: &AfterErrorCase, _cx: &CaseCtx) -> CaseResult {
+        use crate::lab_mem::pipe::{ErrKind, Fault};
+        let mut out = Outcome::new();
+        let text = case.scheme.text();
+        // 1. the same history without a fault: how long the wire gets (the padding draws are seeded)
+        let mut scratch = Outcome::new();
+        let clean = drive(&text, &case.ops, case.draw_seed, &mut scratch)?;
+        let total = clean.raw.len();
+        let at = idx(case.err_at, total.max(1));
+        let kind = [ErrKind::TimedOut, ErrKind::WouldBlock, ErrKind::Interrupted, ErrKind::BrokenPipe][case.kind as usize % 4].clone();
+        let c = case.clone();
+        let scheme_text = text.clone();
+        let expected_all = clean.expected.clone();
+        let (raw, offsets) = run_virtual(async move {
+            install_draw(c.draw_seed);
+            let mut l = link(PipeParams { capacity: 16 << 20, ..Default::default() }, PipeParams::default());
+            let h = l.c2s.clone();
+            h.set_write_err_kind(kind);
+            match c.flush_k {
+                Some(k) => h.arm(Fault::FlushErr { k: k as usize }),
+                None => h.arm(Fault::WriteErrOnce { at }),
+            }
+            let sess = client_session(&mut l, padding(&scheme_text), None);
+            let mut peer_w = l.s_w.take().unwrap();
+            let _ = within(WATCHDOG, sess.clone().start_client()).await;
+            let mut streams: Vec<u32> = Vec::new();
+            let mut calls = 0u64;
+            let mut all_ops = c.ops.clone();
+            all_ops.push(Op::Unbuffer);
+            all_ops.push(Op::Heart);
+            // the same calls with the same payloads as in the clean run; failures are the session's business
+            for op in &all_ops {
+                match op {
+                    Op::Open => {
+                        if let Some(Ok((st, _rx))) = within(WATCHDOG, sess.open_stream()).await {
+                            streams.push(st.id());
+                        } else {
+                            // keep the numbering of the clean run
+                            streams.push(u32::MAX);
+                        }
+                        calls += 1;
+                    }
+                    Op::Unbuffer => {
+                        sess.disable_buffering();
+                        calls += 1;
+                    }
+                    Op::Data(i, len) | Op::DataDuringPeerHeart(i, len) => {
+                        if streams.is_empty() {
+                            continue;
+                        }
+                        let sid = streams[idx(*i, streams.len())];
+                        if sid != u32::MAX {
+                            let data = keyed(sid, 0, calls * 1_000_003, *len);
+                            let _ = within(WATCHDOG, sess.write_data_frame(sid, Bytes::from(data))).await;
+                        }
+                        calls += 1;
+                    }
+                    Op::PeerHeart => {
+                        use tokio::io::AsyncWriteExt;
+                        let _ = peer_w.write_all(&rc::encode(&RFrame::ctl(rc::HEART_REQ, 0))).await;
+                        settle(tokio::time::Duration::from_millis(20)).await;
+                        calls += 1;
+                    }
+                    Op::Heart => {
+                        let _ = within(WATCHDOG, sess.write_control_frame(Frame::control(Command::HeartRequest, 0))).await;
+                        calls += 1;
+                    }
+                }
+            }
+            settle(tokio::time::Duration::from_millis(50)).await;
+            (h.raw(), h.fault_offsets())
+        });
+        let Some(&e) = offsets.first() else {
+            out.class("error-not-reached");
+            return Ok(out);
+        };
+        let kind_name = ["TimedOut", "WouldBlock", "Interrupted", "BrokenPipe"][case.kind as usize % 4];
+        let what = if case.flush_k.is_some() { "flush" } else { "write" };
+        let (_, used_before) = rc::parse(&raw[..e.min(raw.len())]);
+        let cut_inside = used_before != e.min(raw.len());
+        let went_on = raw.len() > e;
+        if went_on {
+            ensure!(
+                !cut_inside,
+                "C04.after-error",
+                "a {what} of the transport failed once ({kind_name}) after {e} bytes, {} bytes into a frame, and the session went on to put {} more bytes behind the incomplete frame: the wire no longer parses as frames (scheme {:?})",
+                e - used_before,
+                raw.len() - e,
+                text
+            );
+            let (frames, used) = rc::parse(&raw);
+            ensure!(used == raw.len(), "C04.after-error", "after a {what} that failed once ({kind_name}) at byte {e} the session went on and left {} bytes that are no complete frame at the end of the wire (scheme {:?})", raw.len() - used, text);
+            // whatever it still sent is something it was asked to send, in order (answers may float)
+            let is_answer = |f: &RFrame| f.cmd == rc::HEART_RESP && f.sid == 0;
+            let want: Vec<&RFrame> = expected_all.iter().filter(|f| !is_answer(f)).collect();
+            let mut wi = 0usize;
+            for f in frames.iter().filter(|f| f.cmd != rc::WASTE && !is_answer(f)) {
+                if f.cmd == rc::SETTINGS {
+                    continue;
+                }
+                while wi < want.len() && want[wi] != f {
+                    wi += 1;
+                }
+                ensure!(wi < want.len(), "C04.after-error", "after a {what} that failed once ({kind_name}) at byte {e} the wire carries a frame cmd={} sid={} len={} that was not submitted (or not in this order) (scheme {:?})", f.cmd, f.sid, f.data.len(), text);
+                wi += 1;
+            }
+        }
+        out.nt(cut_inside);
+        out.class_if(cut_inside, "failed-write-inside-a-frame");
+        out.class_if(!cut_inside, "failed-write-or-flush-on-a-frame-boundary");
+        out.class_if(went_on, "session-went-on-writing-after-the-error");
+        out.class_if(case.flush_k.is_some(), "flush-failed");
+        out.class(match case.kind % 4 { 0 => "kind:TimedOut", 1 => "kind:WouldBlock", 2 => "kind:Interrupted", _ => "kind:BrokenPipe" });
         Ok(out)
     }
 }
